@@ -37,6 +37,7 @@ NAN = 1000
 TOLS = {"pi8": math.pi / 8, "pi6": math.pi / 6, "pi4": math.pi / 4, "pi3": math.pi / 3, "pi2": math.pi / 2}
 K_ANTI = "gc:antipodal:nan-distance"
 K_COINC = "dir:separated:coincident-pair:first-direction-only"
+K_SQUARE = "structured-mesh:equal-length-axes:read-as-1d"
 
 C08_INVS = ["WellFormed", "DirWithinIso", "EarlyExitSound", "EarlyFirstSame"]
 C09_INVS = {
@@ -132,7 +133,8 @@ def rand_gc_points(rng, n):
             elif pts and r < 0.3 and abs(pts[-1][0]) != 90:  # the antipode of the previous point
                 pts.append((-pts[-1][0], pts[-1][1] + 180))
             else:
-                pts.append((rng.randint(-89, 89), lon0 + rng.choice([0, 0, 180, 360, -180])))
+                lat = rng.choice([82, -82, 12, 8]) if r > 0.9 else rng.randint(-89, 89)  # 82, 12, 8: rounding-prone antipodes
+                pts.append((lat, lon0 + rng.choice([0, 0, 180, 360, -180])))
     else:
         for _ in range(n):
             pts.append((rng.choice([0, 0, 90, -90]), rng.choice([0, 90, 180, 270, -90, 360])))
@@ -204,9 +206,9 @@ def _uniq(gen, k, limit=200):
 SIZES = {
     # (pid, tier): mode -> parameters
     ("C08", "quick"): dict(iso=dict(ns=(2, 3, 4, 5, 6), P=10, F=8, E=8),
-                           dir=dict(ns=(2, 3, 4, 5), P=5, F=3, E=3, D=6, B=(0, 1, 2)),
+                           dir=dict(ns=(2, 3, 4, 5), P=5, F=3, E=2, D=6, B=(0, 1, 2)),
                            gc=dict(ns=(2, 3, 4, 5), P=16, F=4, E=8, reps=3),
-                           axis=dict(G=260, E=3), sub=None, cap=1400),
+                           axis=dict(G=260, E=3), sub=None, cap=1700),
     ("C09", "quick"): dict(iso=dict(ns=(2, 3, 4, 5, 6), P=6, F=5, E=5),
                            dir=dict(ns=(2, 3, 4, 5), P=3, F=2, E=2, D=4, B=(0, 2)),
                            gc=dict(ns=(2, 3, 4, 5), P=8, F=3, E=5, reps=2),
@@ -454,7 +456,7 @@ class Ctx:
         self.replayed = 0
         self.nontrivial = set()
         self.samples = []
-        self.hits = {K_ANTI: 0, K_COINC: 0}
+        self.hits = {K_ANTI: 0, K_COINC: 0, K_SQUARE: 0}
         self.relations = {}
         self.boundary_inputs = 0
 
@@ -498,10 +500,34 @@ def _as2d(a):
 # real calls
 
 
+class WrongCenters(ValueError):
+    pass
+
+
 def call_api(gs, pos, fld, edges, est, **kw):
-    """vario_estimate with return_counts; returns (centers, values[dir][bin], counts[dir][bin])."""
-    r = gs.vario_estimate(pos, fld, np.array(edges, dtype=float), estimator=est_name(est), return_counts=True, **kw)
+    """vario_estimate with return_counts; returns (centers, values[dir][bin], counts[dir][bin]).
+    The bin centres must be the mid points of the edges as given (in the caller's unit)."""
+    if edges is None:  # standard bins from (bin_no, max_dist): equidistant from 0
+        edges = np.linspace(0.0, kw["max_dist"], kw["bin_no"] + 1)
+        r = gs.vario_estimate(pos, fld, None, estimator=est_name(est), return_counts=True, **kw)
+    else:
+        edges = np.array(edges, dtype=float)
+        r = gs.vario_estimate(pos, fld, edges.copy(), estimator=est_name(est), return_counts=True, **kw)
+    if len(r) != 3:
+        raise WrongCenters("vario_estimate(return_counts=True) returned %d values" % len(r))
+    mid = (edges[:-1] + edges[1:]) / 2.0
+    if np.shape(r[0]) != mid.shape or not np.allclose(r[0], mid, rtol=1e-14, atol=0):
+        raise WrongCenters("bin_centers %s are not the mid points %s of the given edges" % (np.asarray(r[0]).tolist(), mid.tolist()))
     return r[0], _as2d(r[1]), _as2d(r[2])
+
+
+def safe_api(ctx, st, mode, what, fn):
+    """C08: a valid input must not raise."""
+    try:
+        return fn()
+    except Exception as e:  # noqa: BLE001
+        _fail(ctx, "%s:api:exception" % mode, "%s raised %r on a valid input" % (what, e), mode, st, what, {"exception": repr(e)})
+        return None
 
 
 def field_form(ctx, fa):
@@ -543,11 +569,13 @@ def replay_iso_c08(ctx, gs, K, st):
             _fail(ctx, "iso:kernel:%s:%s" % (est_name(est), bad[0]),
                   "unstructured(%s, euclid) dim=%d differs from the definition in bin %d (%s)" % (est_name(est), dim, bad[2], bad[0]),
                   "iso", st, "unstructured(f, edges, pos, %r, 'e')" % est, _obs(v, c))
-        cen, v, c = call_api(gs, pos_form(ctx, pa), field_form(ctx, fa), ed, est)
+        r = safe_api(ctx, st, "iso", "vario_estimate(%s)" % est_name(est),
+                     lambda: call_api(gs, pos_form(ctx, pa), field_form(ctx, fa), ed, est))
+        if r is None:
+            continue
+        _cen, v, c = r
         ctx.calls += 1
         bad = compare(exp, v, c, est)
-        if bad is None and not np.array_equal(cen, (ed[:-1] + ed[1:]) / 2):
-            bad = ("bin_centers", 0, 0)
         if bad:
             _fail(ctx, "iso:api:%s:%s" % (est_name(est), bad[0]),
                   "vario_estimate(%s) dim=%d differs from the definition in bin %d (%s)" % (est_name(est), dim, bad[2], bad[0]),
@@ -603,7 +631,11 @@ def replay_dir_c08(ctx, gs, K, st):
             ctx.calls += 1
             _dir_check(ctx, st, "directional(separate_dirs=True)", "directional(f, edges, pos, unit dirs, tol, bw, True, %r)" % est,
                        full, early, v, c, est, "kernel-separated", True)
-        _cen, v, c = call_api(gs, pos_form(ctx, pa), field_form(ctx, fa), ed, est, **dir_kwargs(inp))
+        r = safe_api(ctx, st, "dir", "vario_estimate(direction=..., %s)" % est_name(est),
+                     lambda: call_api(gs, pos_form(ctx, pa), field_form(ctx, fa), ed, est, **dir_kwargs(inp)))
+        if r is None:
+            continue
+        _cen, v, c = r
         ctx.calls += 1
         _dir_check(ctx, st, "vario_estimate(direction=...)", "vario_estimate(pos, field, edges, direction, angles_tol, bandwidth, %r)" % est_name(est),
                    full, early, v, c, est, "api", True)
@@ -648,7 +680,11 @@ def replay_gc_c08(ctx, gs, K, st):
         v, c = K.unstructured(fa, ed, pa, est, "h", None)
         ctx.calls += 1
         _gc_check(ctx, st, "unstructured(haversine)", "unstructured(f, edges_rad, latlon, %r, 'h')" % est, _as2d(v), _as2d(c), est, "kernel")
-        _cen, v, c = call_api(gs, pos_form(ctx, pa), field_form(ctx, fa), ed.copy(), est, latlon=True)
+        r = safe_api(ctx, st, "gc", "vario_estimate(latlon=True, %s)" % est_name(est),
+                     lambda: call_api(gs, pos_form(ctx, pa), field_form(ctx, fa), ed.copy(), est, latlon=True))
+        if r is None:
+            continue
+        _cen, v, c = r
         ctx.calls += 1
         _gc_check(ctx, st, "vario_estimate(latlon=True)", "vario_estimate(latlon, field, edges_rad, latlon=True, %r)" % est_name(est), v, c, est, "api")
     exp = norm_bins(out["alts"])
@@ -696,7 +732,10 @@ def replay_axis_c08(ctx, gs, K, st):
                   "ma_structured(f2d, mask2d, %r)" % est, _obs(v, None))
         direction = ctx.rng.choice(["xyz"[ax], ax])
         fld = np.ma.array(vals.copy(), mask=mask.copy()) if mask.any() else vals.copy()
-        v = gs.vario_estimate_axis(fld, direction, est_name(est))
+        v = safe_api(ctx, st, "axis", "vario_estimate_axis(direction=%r, %s)" % (direction, est_name(est)),
+                     lambda: gs.vario_estimate_axis(fld, direction, est_name(est)))
+        if v is None:
+            continue
         ctx.calls += 1
         bad = compare(exp, _as2d(v), None, est)
         if bad:
@@ -806,13 +845,13 @@ def replay_points_c09(ctx, gs, K, st, mode):
         ed, base_kw = f_edges(inp["E"]) * (math.pi / 180.0), {"latlon": True}
     est = rng.choice(["m", "c"])
 
-    def run(rel, pos, fld, kw=None, e=est, expd=None, edges=None, tol=1e-12):
+    def run(rel, pos, fld, kw=None, e=est, expd=None, edges=None, tol=1e-12, std=False):
         k = dict(base_kw)
         k.update(kw or {})
-        eg = (ed if edges is None else edges).copy()
+        eg = None if std else (ed if edges is None else edges).copy()
         desc = "vario_estimate(pos=%s, field=%s, bin_edges=%s, estimator=%r, %s)" % (
             np.asarray(pos).tolist() if not isinstance(pos, tuple) else [p.tolist() for p in pos],
-            _show(fld), eg.tolist(), est_name(e), ", ".join("%s=%s" % (a, _show(b)) for a, b in k.items()))
+            _show(fld), None if eg is None else eg.tolist(), est_name(e), ", ".join("%s=%s" % (a, _show(b)) for a, b in k.items()))
         _check_rel(ctx, st, mode, rel, exp if expd is None else expd, lambda: call_api(gs, pos, fld, eg, e, **k), e, desc, tol)
 
     fld0 = fa if nf > 1 else fa[0]
@@ -871,19 +910,22 @@ def replay_points_c09(ctx, gs, K, st, mode):
             run("missing:" + label, p_, f_, kw)
     # per-field skipping: the stack is the pair-count weighted mean of its fields
     if nf > 1 and mode != "dir":
-        tot_c, tot_s = 0, 0.0
         singles = []
-        for mth in range(nf):
-            _cen, v, c = call_api(gs, pa, fa[mth], ed.copy(), "m", **base_kw)
-            ctx.calls += 1
-            singles.append((v, c))
-        _cen, v, c = call_api(gs, pa, fa, ed.copy(), "m", **base_kw)
         ctx.rel("per-field")
+        try:
+            for mth in range(nf):
+                _cen, v, c = call_api(gs, pa, fa[mth], ed.copy(), "m", **base_kw)
+                ctx.calls += 1
+                singles.append((v, c))
+            _cen, v, c = call_api(gs, pa, fa, ed.copy(), "m", **base_kw)
+        except Exception as e:  # noqa: BLE001
+            _fail(ctx, "rel:per-field:%s:exception" % mode, "vario_estimate raised %r" % (e,), mode, st, "single fields / stack", {"exception": repr(e)})
+            singles, v, c = [], np.zeros((1, 1)), np.zeros((1, 1), dtype=int)
         csum = sum(s[1] for s in singles)
         ssum = sum(s[0] * np.maximum(s[1], 0) for s in singles)
         okc = np.array_equal(csum, c)
         okv = np.allclose(ssum, v * c, rtol=1e-12, atol=1e-12)
-        if not (okc and okv) and not (mode == "gc" and out["anti"]):
+        if singles and not (okc and okv) and not (mode == "gc" and out["anti"]):
             _fail(ctx, "rel:per-field:%s:%s" % (mode, "counts" if not okc else "values"),
                   "stacked fields are not the pair-count weighted combination of the single fields", mode, st,
                   "vario_estimate(stack) vs vario_estimate(field_m)", {"stack": _obs(v, c), "single": [_obs(*s) for s in singles]})
@@ -909,6 +951,34 @@ def replay_points_c09(ctx, gs, K, st, mode):
         for gsc, nm in ((gs.DEGREE_SCALE, "degree"), (gs.KM_SCALE, "km"), (7.0, "arbitrary")):
             run("geo_scale:" + nm, pa, fld0, {"geo_scale": gsc}, edges=ed * gsc)
         run("geo_scale:degree-literal-edges", pa, fld0, {"geo_scale": gs.DEGREE_SCALE}, edges=_half_degrees(inp["E"]))
+        # default standard bins: the bin centres are in the scaled unit (two real outputs related)
+        if n >= 2:
+            ctx.rel("standard-bins:geo_scale")
+            c1 = gs.vario_estimate(pa, fld0, latlon=True)[0]
+            for gsc in (gs.KM_SCALE, 7.0):
+                c2 = gs.vario_estimate(pa, fld0, latlon=True, geo_scale=gsc)[0]
+                ctx.calls += 1
+                if np.shape(c1) != np.shape(c2) or not np.allclose(c2, gsc * c1, rtol=1e-12, atol=0):
+                    _fail(ctx, "rel:standard-bins:gc:geo_scale", "standard bins with geo_scale=%s are not geo_scale * the radian bins" % gsc,
+                          mode, st, "vario_estimate(latlon=%s, field, latlon=True, geo_scale=%s)[0]" % (pa.tolist(), gsc),
+                          {"radian": np.asarray(c1).tolist(), "scaled": np.asarray(c2).tolist()})
+    E = inp["E"]
+    if E[0] == 0 and len({b - a for a, b in zip(E, E[1:])}) == 1:
+        # equidistant edges from 0 are the standard bins for (bin_no, max_dist)
+        nb = len(E) - 1
+        if mode == "gc":
+            for gsc in (1.0, gs.KM_SCALE):
+                run("standard-bins(bin_no,max_dist)", pa, fld0, {"geo_scale": gsc, "bin_no": nb, "max_dist": float(ed[-1] * gsc)}, std=True)
+        else:
+            run("standard-bins(bin_no,max_dist)", pa, fld0, {"bin_no": nb, "max_dist": float(ed[-1])}, std=True)
+    if mode == "iso" and n >= 2:
+        ctx.rel("standard-bins:permutation/translation")
+        c1 = gs.vario_estimate(pa, fld0)[0]
+        c2 = gs.vario_estimate(pa[:, pi] + 3.0, fa[:, pi] if nf > 1 else fa[0, pi])[0]
+        ctx.calls += 2
+        if np.shape(c1) != np.shape(c2) or not np.allclose(c1, c2, rtol=1e-12, atol=1e-15):
+            _fail(ctx, "rel:standard-bins:iso:permutation/translation", "standard bins change under a permutation + translation of the points",
+                  mode, st, "vario_estimate(pos, field)[0]", {"base": np.asarray(c1).tolist(), "moved": np.asarray(c2).tolist()})
     return True
 
 
@@ -945,7 +1015,12 @@ def replay_axis_c09(ctx, gs, K, st):
 
     def axis_rel(rel, fld, direction, kw=None):
         ctx.rel(rel)
-        v = gs.vario_estimate_axis(fld, direction, est_name(est), **(kw or {}))
+        try:
+            v = gs.vario_estimate_axis(fld, direction, est_name(est), **(kw or {}))
+        except Exception as e:  # noqa: BLE001
+            _fail(ctx, "rel:%s:axis:exception" % rel, "relation %s: vario_estimate_axis raised %r" % (rel, e), "axis", st,
+                  "vario_estimate_axis(%s, %r, %r, %s)" % (_show(fld), direction, est_name(est), kw), {"exception": repr(e)})
+            return
         ctx.calls += 1
         bad = compare(explag, _as2d(v), None, est)
         if bad:
@@ -973,8 +1048,22 @@ def replay_axis_c09(ctx, gs, K, st):
     pts = np.array([x.reshape(-1) for x in grid])
     fldnan = nanf
 
-    def iso_rel(rel, call, desc, tol=1e-12):
-        _check_rel(ctx, st, "axis", rel, expiso, call, est, desc, tol)
+    # all axes of equal length n and nd * n == n ** nd or n ** (nd - 1)  (2 x 2, 3 x 3 x 3): the axes tuple
+    # has as many entries as the field (or as one field of a stack) -> format_struct_pos_shape reads it as 1-D
+    n0 = vals.shape[0]
+    ambiguous = nd >= 2 and len(set(vals.shape)) == 1 and nd * n0 in (n0 ** nd, n0 ** (nd - 1))
+
+    def iso_rel(rel, call, desc, tol=1e-12, e=None, expd=None):
+        if ambiguous and rel.startswith("structured-mesh"):
+            col = Ctx(ctx.pid, ctx.tier, 0, "tmp")
+            _check_rel(col, st, "axis", rel, expiso if expd is None else expd, call, est if e is None else e, desc, tol)
+            ctx.calls += col.calls
+            ctx.rel(rel)
+            for _k, what, rp in col.violations:
+                ctx.violation(K_SQUARE, "a structured mesh whose axes all have length %d (%s grid) is read as 1-D input: %s"
+                              % (vals.shape[0], " x ".join(map(str, vals.shape)), what), rp)
+            return
+        _check_rel(ctx, st, "axis", rel, expiso if expd is None else expd, call, est if e is None else e, desc, tol)
 
     pos_s = axes if nd > 1 else (axes[0] if rng.random() < 0.5 else axes)
     iso_rel("structured-mesh", lambda: call_api(gs, pos_s, fldnan.copy(), ed, est, mesh_type="structured"),
@@ -992,10 +1081,9 @@ def replay_axis_c09(ctx, gs, K, st):
                 "vario_estimate(points without the missing cells)")
     # two fields on the same mesh: twice the counts, same value
     st2 = [[(2 * c, vm, cressie_dup(c, vc)) for (c, vm, vc) in alts] for alts in expiso[0]]
-    if est == "m":
-        _check_rel(ctx, st, "axis", "structured-mesh-stacked", [st2],
-                   lambda: call_api(gs, axes, [fldnan.copy(), fldnan.copy() + 3.0], ed, "m", mesh_type="structured"), "m",
-                   "vario_estimate(axes, [F, F+3], mesh_type='structured')")
+    iso_rel("structured-mesh-stacked", lambda: call_api(gs, axes, [fldnan.copy(), fldnan.copy() + 3.0], ed, "m", mesh_type="structured"),
+            "vario_estimate(axes=%s, [F, F+3] with F=%s, edges=%s, mesh_type='structured')" % ([a.tolist() for a in axes], _show(fldnan), ed.tolist()),
+            e="m", expd=[st2])
     # the along-axis estimator equals the directional estimator on the unit-spaced grid points
     if nd >= 2 and not rng.random() < 0.5:
         n_ax = vals.shape[ax]
@@ -1029,8 +1117,13 @@ def replay_sub_c09(ctx, gs, K, st):
     for seed in (rng.randint(0, 10 ** 6), rng.randint(0, 10 ** 6)):
         est = rng.choice(["m", "c"])
         ctx.rel("sub-sample")
-        _c, v, c = call_api(gs, pa, fld0, ed, est, sampling_size=k, sampling_seed=seed)
-        _c, v2, c2 = call_api(gs, pa.copy(), np.array(fld0, copy=True), ed, est, sampling_size=k, sampling_seed=seed)
+        try:
+            _c, v, c = call_api(gs, pa, fld0, ed, est, sampling_size=k, sampling_seed=seed)
+            _c, v2, c2 = call_api(gs, pa.copy(), np.array(fld0, copy=True), ed, est, sampling_size=k, sampling_seed=seed)
+        except Exception as e:  # noqa: BLE001
+            _fail(ctx, "rel:sub-sample:exception", "vario_estimate(sampling_size=%d) raised %r" % (k, e), "sub", st,
+                  "vario_estimate(..., sampling_size=%d, sampling_seed=%d)" % (k, seed), {"exception": repr(e)})
+            continue
         ctx.calls += 2
         hits = [s for s, e in subs if compare(e, v, c, est) is None]
         desc = "vario_estimate(pos, field, edges, sampling_size=%d, sampling_seed=%d, estimator=%r)" % (k, seed, est_name(est))
@@ -1077,7 +1170,8 @@ def _work(arg):
     with tlc.Scratch() as sc:
         sc.write(job["name"] + ".tla", mod)
         dump = sc.path(job["name"] + ".dump")
-        r = tlc.run(sc, job["name"], cfg, workers=1, timeout=timeout, dump=("states", dump), heap="2g")
+        r = tlc.run(sc, job["name"], cfg, workers=1, timeout=timeout, dump=("states", dump), heap="2g",
+                    env={"JAVA_TOOL_OPTIONS": "-Xss64m"})
         tlc.must_pass(r, job["name"])
         res["tlc"] = dict(distinct=r.distinct, generated=r.generated, depth=r.depth, wall=r.wall, error=r.error)
         if r.error:
@@ -1150,7 +1244,7 @@ def run(pid, tier, seed, replay=None):
     jobs.sort(key=lambda j: -j["est"] * (8 if j["mode"] == "dir" else 1))
     t0 = time.time()
     totals = {"calls": 0, "replayed": 0, "boundary": 0}
-    hits = {K_ANTI: 0, K_COINC: 0}
+    hits = {K_ANTI: 0, K_COINC: 0, K_SQUARE: 0}
     relations = {}
     per_mode = {}
     with mp.get_context("fork").Pool(procs) as pool:
